@@ -20,7 +20,11 @@
 
 package executor
 
-import core "github.com/noble-assets/orbiter/v2/types/core"
+import (
+	"fmt"
+
+	core "github.com/noble-assets/orbiter/v2/types/core"
+)
 
 // DefaultGenesisState returns the default values for the adapter
 // component initial state.
@@ -36,10 +40,18 @@ func (g *GenesisState) Validate() error {
 		return core.ErrNilPointer.Wrap("executor genesis state")
 	}
 
+	// NOTE: repeated entries are rejected because the genesis initialization
+	// fails when an entry is already paused.
+	visitedIDs := make(map[core.ActionID]struct{})
 	for _, id := range g.PausedActionIds {
 		if err := id.Validate(); err != nil {
 			return err
 		}
+
+		if _, found := visitedIDs[id]; found {
+			return fmt.Errorf("repeated paused action ID: %s", id)
+		}
+		visitedIDs[id] = struct{}{}
 	}
 
 	return nil
